@@ -128,8 +128,6 @@ type value struct {
 
 func sv(s string) value { return value{K: "s", S: s} }
 
-func isStringy(t reflect.Type) bool { return t.Kind() == reflect.String }
-
 // yamlText renders a value as YAML (JSON flow syntax is YAML) for a leaf of type t.
 func (v value) yamlText(t reflect.Type) string {
 	switch v.K {
@@ -724,7 +722,23 @@ func (w *worker) eval(idx int) (res result) {
 			res.Nontrivial = k.Kind + "|" + l.Path + "|" + strings.Join(present, "+") + "|" + k.Format
 		}
 		if !ok {
-			res.Sig = fmt.Sprintf("precedence:%s:present=%s:expected-winner=%s:%s", k.Kind, strings.Join(present, "+"), k.Winner, l.Path)
+			// classify what was observed instead: the value of another present source, the default, a truncated list...
+			obs := "other-value"
+			switch {
+			case got == w.base[l.Path] && k.Winner != "default":
+				obs = "default"
+			case wantV.K == "l" && got != "[]" && strings.HasPrefix(want, strings.TrimSuffix(got, "]")):
+				obs = "only-a-prefix-of-the-list"
+			}
+			for _, s := range k.Sources {
+				if s.V.want(l.T) == got {
+					obs = "value-of-" + s.Kind
+					if s.Tag != "" && k.Kind == "cross" {
+						obs += ":" + s.Tag
+					}
+				}
+			}
+			res.Sig = fmt.Sprintf("precedence:%s:%s-should-win:got=%s", l.Path, k.Winner, obs)
 			res.What = fmt.Sprintf("%s with %s: effective value %s, expected %s (value of %s)", l.Path, ev.J(k.Sources), got, want, k.Winner)
 		}
 	case "expand", "expand-cmd":
